@@ -60,6 +60,14 @@ def _job(args):
     return n, fails
 
 
+def _pmap(fn, items):
+    # measured on the loaded box: a fork pool is SLOWER than a plain loop for these sub-millisecond replays
+    # until there are some 10^5 of them (14 500 programs: 8 s serial, 17-67 s with 2-8 processes)
+    if len(items) < 60000:
+        return [fn(x) for x in items]
+    return core.parallel_map(fn, items, procs=8, chunk=2000)
+
+
 def run(tier: str) -> int:
     ck = core.Check("C35", tier)
     consts = QUICK if tier == "quick" else THOROUGH
@@ -97,7 +105,7 @@ def run(tier: str) -> int:
     for g in groups:
         for t, _ in variants(g[0]):
             per_target[t] = per_target.get(t, 0) + 1
-    for n, fails in core.parallel_map(_job, groups, procs=8, chunk=100):
+    for n, fails in _pmap(_job, groups):
         n_impl += n
         for f in fails:
             ck.fail(f)
